@@ -22,7 +22,7 @@ def run(ctx):
     ctx.assumptions += [
         "guard no_wrap: mark + interval < 2^64 for every lease (uint64 wrap-around is outside the property)",
         "one live Sequence object per key at a time; a crash is modelled as a store call that fails (after the read) or is applied and then reported failed (after the write), after which the object is dropped",
-        "concurrent Next callers are serialised by the object's mutex (checked by 20 free-running runs per check: distinct, per-caller increasing)",
+        "concurrent callers are serialised by the object's mutex: the model treats Next/Release on one object as atomic; this is checked on the implementation by 20 free-running runs (distinct, per-caller increasing) and by starting a second Next/Release at EVERY store-operation boundary of the first caller's operations (exhaustive per generated op list; crash + restart afterwards; no number may repeat)",
     ]
 
 
